@@ -10,6 +10,7 @@ import (
 	"bytes"
 	"testing"
 
+	GG "github.com/cloudflare/circl/ecc/bls12381"
 	"github.com/cloudflare/circl/internal/verifmc"
 	"github.com/cloudflare/circl/internal/verifref/c09ref"
 	"github.com/cloudflare/circl/internal/verifref/wcurve"
@@ -18,8 +19,9 @@ import (
 
 func c09BlsDec(cs []c09ref.Case) []verifmc.DecCase {
 	out := make([]verifmc.DecCase, len(cs))
+	bases := c09ref.Bases(cs)
 	for i, c := range cs {
-		out[i] = verifmc.DecCase{Name: c.Name, Class: c.Class, Data: c.Data}
+		out[i] = verifmc.DecCase{Name: c.Name, Class: c.Class, Data: c.Data, Base: bases[i]}
 	}
 	return out
 }
@@ -31,7 +33,7 @@ func c09BlsRef(c *wcurve.Curve) func([]byte) verifmc.DecOracle {
 	}
 }
 
-func c09BlsScheme[K bls.KeyGroup](r *verifmc.Run, name string, keyCurve, sigCurve *wcurve.Curve, k K) {
+func c09BlsScheme[K bls.KeyGroup](r *verifmc.Run, name string, keyCurve, sigCurve *wcurve.Curve, k K, sub func(sum, first []byte) []byte) {
 	flip := r.Pick(1, 11)
 	// ---- public keys
 	pkCases := c09ref.BLSCases(keyCurve, true, c09ref.BLSOptions{FlipBases: flip, AllAlias: r.Thorough()})
@@ -56,6 +58,15 @@ func c09BlsScheme[K bls.KeyGroup](r *verifmc.Run, name string, keyCurve, sigCurv
 	r.CheckDecoder(verifmc.DecSpec{
 		Entry: "bls." + name + ".PublicKey.UnmarshalBinary", Cases: c09BlsDec(pkCases), RefAll: r.Thorough(),
 		Ref: c09BlsRef(keyCurve),
+		Seq: func(first, second []byte) verifmc.DecResult {
+			pk := new(bls.PublicKey[K])
+			verifmc.Try(func() { _ = pk.UnmarshalBinary(first) })
+			if err := pk.UnmarshalBinary(second); err != nil {
+				return verifmc.DecResult{}
+			}
+			out, _ := pk.MarshalBinary()
+			return verifmc.DecResult{Accepted: true, Reenc: out}
+		},
 		Lib: func(in []byte) verifmc.DecResult {
 			pk := new(bls.PublicKey[K])
 			if err := pk.UnmarshalBinary(in); err != nil {
@@ -102,6 +113,23 @@ func c09BlsScheme[K bls.KeyGroup](r *verifmc.Run, name string, keyCurve, sigCurv
 	r.CheckDecoder(verifmc.DecSpec{
 		Entry: "bls." + name + ".Aggregate/signature", Cases: c09BlsDec(sigCases), RefAll: r.Thorough(),
 		Ref: c09BlsRef(sigCurve),
+		// Aggregate decodes every signature into one loop variable: (first, second) is the list [first, second];
+		// what second was taken as is the aggregate minus first
+		Seq: func(first, second []byte) verifmc.DecResult {
+			if _, err := bls.Aggregate(k, []bls.Signature{first}); err != nil {
+				// the list is refused because of first: nothing is learnt about second in this order
+				out, err := bls.Aggregate(k, []bls.Signature{second})
+				if err != nil {
+					return verifmc.DecResult{}
+				}
+				return verifmc.DecResult{Accepted: true, Reenc: out}
+			}
+			out, err := bls.Aggregate(k, []bls.Signature{first, second})
+			if err != nil {
+				return verifmc.DecResult{}
+			}
+			return verifmc.DecResult{Accepted: true, Reenc: sub(out, first)}
+		},
 		Lib: func(in []byte) verifmc.DecResult {
 			out, err := bls.Aggregate(k, []bls.Signature{in})
 			if err != nil {
@@ -117,9 +145,25 @@ func TestVerifC09_bls_keys(t *testing.T) {
 	defer r.Finish()
 	r.Rule("compressed G1/G2 alphabets of bls_g1/bls_g2 (flips of 1 quick / 11 thorough bases) plus the library's own keys and one honest signature with all its bit flips, " +
 		"given to PublicKey.UnmarshalBinary (re-marshal must equal the input, identity never validates), to Verify as the signature (whatever verifies must be a canonical member; a verifying string other than the honest signature is counted, C02 judges it) " +
-		"and to Aggregate of a single signature (output must equal the input), for KeyG1SigG2 and KeyG2SigG1; distinct = distinct (entry point, input bytes)")
-	c09BlsScheme[bls.KeyG1SigG2](r, "KeyG1SigG2", wcurve.BLS12381G1(), wcurve.BLS12381G2(), bls.G1{})
-	c09BlsScheme[bls.KeyG2SigG1](r, "KeyG2SigG1", wcurve.BLS12381G2(), wcurve.BLS12381G1(), bls.G2{})
+		"and to Aggregate of a single signature (output must equal the input), for KeyG1SigG2 and KeyG2SigG1; PublicKey.UnmarshalBinary also on a key object that already holds the nearest valid key, and Aggregate on the list [nearest valid signature, case] (its loop variable is reused), and in the opposite orders; distinct = distinct (entry point, input bytes)")
+	c09BlsScheme[bls.KeyG1SigG2](r, "KeyG1SigG2", wcurve.BLS12381G1(), wcurve.BLS12381G2(), bls.G1{}, func(sum, first []byte) []byte {
+		var S, F GG.G2
+		if S.SetBytes(sum) != nil || F.SetBytes(first) != nil {
+			return nil
+		}
+		F.Neg()
+		S.Add(&S, &F)
+		return S.BytesCompressed()
+	})
+	c09BlsScheme[bls.KeyG2SigG1](r, "KeyG2SigG1", wcurve.BLS12381G2(), wcurve.BLS12381G1(), bls.G2{}, func(sum, first []byte) []byte {
+		var S, F GG.G1
+		if S.SetBytes(sum) != nil || F.SetBytes(first) != nil {
+			return nil
+		}
+		F.Neg()
+		S.Add(&S, &F)
+		return S.BytesCompressed()
+	})
 	r.RequireCounter("in:nonsubgroup", 70)
 	r.RequireCounter("in:flip", 3000)
 	r.RequireCounter("in:valid-lib", 10)
